@@ -59,6 +59,10 @@ CLAIMS = {
  'C13': dict(ref='7/C13', partial=None,
    text='Theorems C13_size (size = product, any rank), C13_empty, C13_rank0 and the equality of the C++14 fold emulations with the fold expressions (foldTimesEmu_eq, foldOrEmu_eq, foldAndEmu_eq). Tied by observing size(), empty(), rank(), rank_dynamic(), extent(r), static_extent(r), stride(r) and the flag forwarders of mdspan after construction and after conversion, for zero extents in every position and extents whose product is at the top of the index type, against the machine-layer model (size folded in size_t and returned as size_type) and the statement.',
    tech='Lean 4 proof + transcript correspondence', note='The C++14 configuration is exercised by C15 only.'),
+ 'C12': dict(ref='7/C12', partial='containers are modelled as lists with a buffer identity; allocator-taking constructors and pmr containers are not instantiated; for std::array containers the library does not check that N >= required_span_size() (theorem C12_array_unchecked), which is treated as a precondition.',
+   text='Theorems C12_ctor_size_vector/array, C12_ctor_value_init, C12_adopt_keeps, C12_access(_inb) (every access hits a cell below the container size, via C01_range), C12_write_frame (a write changes exactly its cell, via C01_inj), C12_view_alias(_rw), C12_copy_independent, C12_move_transfers, C12_size, and the history theorems C12_step_inv / C12_run / C12_run_access_safe: for every sequence of construct / adopt / copy / move / assign / write operations the invariant (container length >= span for live objects, pairwise distinct buffers) holds in every reachable state. Tied by random op sequences on mdarray<int, E, L, vector|array<int,64>> (7 layouts x 3 index types x 6 patterns) with observations of extents, strides, container size, size(), all container elements, aliasing between every pair of live objects and views, const and non-const reads and the position of the referenced element inside the container, compared with the model (APool) and with an independent executable statement of the property.',
+   tech='Lean 4 invariant proof over operation histories + transcript correspondence of op sequences',
+   note='The pinned tree returned container().size() from size() (fixed: f73e550).'),
 }
 NOT_YET = 'check not built yet (work in progress; DESIGN.md section 7 describes the planned proof and correspondence)'
 
